@@ -97,7 +97,7 @@ fn at_mut<'a>(item: &'a mut Item, path: &[usize]) -> Option<&'a mut Item> {
     Some(cur)
 }
 
-pub const N_STRUCT_KINDS: u64 = 21;
+pub const N_STRUCT_KINDS: u64 = 22;
 
 pub struct Mutation {
     pub bytes: Vec<u8>,
@@ -427,6 +427,28 @@ pub fn struct_mutate(bytes: &[u8], kind: u64, sel: u64, arg: u64) -> Option<Muta
             let it = at_mut(&mut top, &s.path)?;
             *it = Item { major: 7, ai: [23u8, 19, 0, 16][(arg % 4) as usize], arg: 0, body: Body::None };
             m(&top, "cbor.struct.simple-value", true)
+        }
+        21 => {
+            // remove a tag: the top-level #6.200 (an envelope must be tagged: must reject), or the tag of a leaf or
+            // of a wrapped envelope somewhere inside (may still be well-formed - the round-trip oracle decides)
+            let inner: Vec<&Site> = sites.iter().filter(|s| matches!(s.kind, SiteKind::LeafTag | SiteKind::WrappedTag)).collect();
+            if arg % 3 == 0 || inner.is_empty() {
+                if top.major != 6 {
+                    return None;
+                }
+                let content = top.items().first()?.clone();
+                // what is left is ill-formed unless it is itself a tagged envelope (the content of a wrapped one)
+                let still_tagged = content.is_tag(TAG_ENVELOPE);
+                return m(&content, "cbor.struct.untag-top-level", !still_tagged);
+            }
+            let path = inner[(sel % inner.len() as u64) as usize].path.clone();
+            let it = at_mut(&mut top, &path)?;
+            if it.major != 6 {
+                return None;
+            }
+            let content = it.items().first()?.clone();
+            *it = content;
+            m(&top, "cbor.struct.untag-inner", false)
         }
         20 => {
             // shrink a byte string inside leaf content to 0..2 bytes (stays canonical CBOR; typed values such as
